@@ -11,6 +11,7 @@ import Fadl.Model.Simplify
 import Fadl.Lemmas.LazyRules
 import Fadl.Lemmas.Coincide
 import Fadl.Lemmas.MonoLz
+import Fadl.Lemmas.DictSem
 namespace Fadl
 set_option linter.unusedSimpArgs false
 
@@ -538,17 +539,39 @@ theorem pyEq_const (k c : Const) (kv cv : Val) (hk : constVal k = .ok kv) (hc : 
     cases c <;> simp [constVal] at hc <;> subst hc <;> simp [pyEq, asInt, Val.beq, constKeyEq]
     all_goals (rw [Bool.eq_iff_iff]; simp only [beq_iff_eq, Const.str.injEq, Const.int.injEq]; exact eq_comm)
 
-theorem dictLookup_sem (w : World) (env : Env) (k : Const) (kvl : Val) (hk : constVal k = .ok kvl)
-    (hkind : (∃ s, k = .str s) ∨ (∃ n, k = .int n)) (r : Expr) (v : Val) :
+/-- the values of constant keys are scalars -/
+theorem constVal_scalar {c : Const} {v : Val} (h : constVal c = .ok v) : scalarV v = true := by
+  cases c <;> simp [constVal] at h <;> subst h <;> rfl
+
+theorem constKeys_scalar (w : World) (env : Env) : ∀ (ks : List Expr) (kv : List Val), allConstKeys ks = true →
+    evalAll (denLLz w ks) env = .ok kv → ∀ x ∈ kv, scalarV x = true
+  | [], kv, _, h => by simp [evalAll, denLLz, seqRes] at h; subst h; simp
+  | c0 :: ks, kv, hc, h => by
+    cases c0 with
+    | const c =>
+      simp only [allConstKeys] at hc
+      simp only [denLLz] at h
+      obtain ⟨k0, kv', hk0, hkv', rfl⟩ := evalAll_cons_inv _ _ env kv h
+      simp only [denLz] at hk0
+      intro x hx
+      simp only [List.mem_cons] at hx
+      rcases hx with rfl | hx
+      · exact constVal_scalar hk0
+      · exact constKeys_scalar w env ks kv' hc hkv' x hx
+    | _ => simp [allConstKeys] at hc
+
+/-- the model's lookup (on the key expressions) and the value-level lookup (on their values) find an entry together -/
+theorem lastMatch_isSome (w : World) (env : Env) (k : Const) (kvl : Val) (hk : constVal k = .ok kvl)
+    (hkind : (∃ s, k = .str s) ∨ (∃ n, k = .int n)) :
     ∀ (ks vs : List Expr) (kv vv : List Val), allConstKeys ks = true →
       evalAll (denLLz w ks) env = .ok kv → evalAll (denLLz w vs) env = .ok vv →
-      (ks.zip vs).findSome? (fun p => match p.1 with
-        | .const c => if constKeyEq c k then some p.2 else Option.none
-        | _ => Option.none) = some r →
-      lookupKey kvl kv vv = some v → denLz w r env = .ok v
-  | [], vs, kv, vv, _, _, _, hf, _ => by simp at hf
-  | c0 :: ks, [], kv, vv, _, _, _, hf, _ => by simp at hf
-  | c0 :: ks, v0 :: vs, kv, vv, hc, hkv, hvv, hf, hl => by
+      (dictLookupLast k ks vs).isSome = (lastMatchV kvl kv vv).isSome
+  | [], vs, kv, vv, _, hkv, _ => by
+    simp [evalAll, denLLz, seqRes] at hkv; subst hkv; simp [dictLookupLast, lastMatchV]
+  | c0 :: ks, [], kv, vv, _, _, hvv => by
+    simp [evalAll, denLLz, seqRes] at hvv; subst hvv
+    cases c0 <;> cases kv <;> simp [dictLookupLast, lastMatchV]
+  | c0 :: ks, v0 :: vs, kv, vv, hc, hkv, hvv => by
     cases c0 with
     | const c =>
       simp only [allConstKeys] at hc
@@ -557,22 +580,69 @@ theorem dictLookup_sem (w : World) (env : Env) (k : Const) (kvl : Val) (hk : con
       obtain ⟨x0, vv', hx0, hvv', rfl⟩ := evalAll_cons_inv _ _ env vv hvv
       simp only [denLz] at hk0
       have hpe := pyEq_const k c kvl k0 hk hk0 hkind
-      simp only [List.zip_cons_cons, List.findSome?_cons] at hf
-      simp only [lookupKey] at hl
-      by_cases hm : constKeyEq c k = true
-      · simp only [hm, if_true, Option.some.injEq] at hf
-        rw [hpe, hm] at hl
-        simp only [if_true, Option.some.injEq] at hl
-        subst hf hl
-        exact hx0
-      · simp only [hm] at hf
-        rw [hpe] at hl
-        simp only [hm] at hl
-        exact dictLookup_sem w env k kvl hk hkind r v ks vs kv' vv' hc hkv' hvv' (by simpa using hf) (by simpa using hl)
+      have ih := lastMatch_isSome w env k kvl hk hkind ks vs kv' vv' hc hkv' hvv'
+      simp only [dictLookupLast, lastMatchV]
+      cases hr : dictLookupLast k ks vs with
+      | some r' =>
+        rw [hr] at ih
+        cases hm : lastMatchV kvl kv' vv' with
+        | some x => rfl
+        | none => rw [hm] at ih; cases ih
+      | none =>
+        rw [hr] at ih
+        cases hm : lastMatchV kvl kv' vv' with
+        | some x => rw [hm] at ih; cases ih
+        | none => simp only [hpe]; split <;> rfl
+    | _ => simp [allConstKeys] at hc
+
+theorem dictLookup_sem (w : World) (env : Env) (k : Const) (kvl : Val) (hk : constVal k = .ok kvl)
+    (hkind : (∃ s, k = .str s) ∨ (∃ n, k = .int n)) :
+    ∀ (ks vs : List Expr) (kv vv : List Val) (r : Expr) (v : Val), allConstKeys ks = true →
+      evalAll (denLLz w ks) env = .ok kv → evalAll (denLLz w vs) env = .ok vv →
+      dictLookupLast k ks vs = some r →
+      lastMatchV kvl kv vv = some v → denLz w r env = .ok v
+  | [], vs, kv, vv, r, v, _, _, _, hf, _ => by simp [dictLookupLast] at hf
+  | c0 :: ks, [], kv, vv, r, v, _, _, _, hf, _ => by cases c0 <;> simp [dictLookupLast] at hf
+  | c0 :: ks, v0 :: vs, kv, vv, r, v, hc, hkv, hvv, hf, hl => by
+    cases c0 with
+    | const c =>
+      simp only [allConstKeys] at hc
+      simp only [denLLz] at hkv hvv
+      obtain ⟨k0, kv', hk0, hkv', rfl⟩ := evalAll_cons_inv _ _ env kv hkv
+      obtain ⟨x0, vv', hx0, hvv', rfl⟩ := evalAll_cons_inv _ _ env vv hvv
+      simp only [denLz] at hk0
+      have hpe := pyEq_const k c kvl k0 hk hk0 hkind
+      simp only [dictLookupLast] at hf
+      simp only [lastMatchV] at hl
+      cases hr : dictLookupLast k ks vs with
+      | some r' =>
+        simp only [hr, Option.some.injEq] at hf; subst hf
+        -- the model found a later entry: so does the value-level lookup (same keys, same test)
+        cases hm : lastMatchV kvl kv' vv' with
+        | some x =>
+          simp only [hm, Option.some.injEq] at hl; subst hl
+          exact dictLookup_sem w env k kvl hk hkind ks vs kv' vv' r' x hc hkv' hvv' hr hm
+        | none =>
+          have := lastMatch_isSome w env k kvl hk hkind ks vs kv' vv' hc hkv' hvv'
+          rw [hr, hm] at this; cases this
+      | none =>
+        simp only [hr] at hf
+        cases hm : lastMatchV kvl kv' vv' with
+        | some x =>
+          have := lastMatch_isSome w env k kvl hk hkind ks vs kv' vv' hc hkv' hvv'
+          rw [hr, hm] at this; cases this
+        | none =>
+          simp only [hm] at hl
+          rw [hpe] at hl
+          by_cases hmk : constKeyEq c k = true
+          · simp only [hmk, if_true, Option.some.injEq] at hf hl
+            subst hf hl
+            exact hx0
+          · simp [hmk] at hf
     | _ => simp [allConstKeys] at hc
 
 /-- **{k0: v0, …}[k]  ⇒  vi** and **{…}.a ⇒ vi**: whenever the lookup on the literal evaluates, the selected value
-    expression evaluates to the same value -/
+    expression - the one of the LAST entry with that key, which is the one Python keeps - evaluates to the same value -/
 theorem rule_dict_key (w : World) (env : Env) (ks vs : List Expr) (k : Const) (r : Expr) (v : Val)
     (hkind : (∃ s, k = .str s) ∨ (∃ n, k = .int n)) (hd : dictLookup ks vs k = some r)
     (h : denLz w (.sub (.dict ks vs) (.const k)) env = .ok v) : denLz w r env = .ok v := by
@@ -591,26 +661,25 @@ theorem rule_dict_key (w : World) (env : Env) (ks vs : List Expr) (k : Const) (r
         · simp only [hlen, if_true, mkDictLz, mkDict] at h
           by_cases hcl : Val.cleanL kv = true
           · simp only [hcl, if_true] at h
-            by_cases hdup : hasDupKey kv = true
-            · simp [hdup] at h
-            · simp only [hdup] at h
-              cases hkc : constVal k with
-              | error e => simp [hkc] at h
-              | ok kvl =>
-                simp only [hkc, Bool.false_eq_true, if_false] at h
-                have hsub : subscriptLz (.dict kv vv) kvl = .ok v := h
-                have hunf : subscriptLz (.dict kv vv) kvl =
-                    if kvl.clean && Val.cleanL kv then subscript (.dict kv vv) kvl else .error uncleanErr := by
-                  cases kvl <;> rfl
-                rw [hunf] at hsub
-                by_cases hcc : (kvl.clean && Val.cleanL kv) = true
-                · simp only [hcc, if_true, subscript] at hsub
-                  cases hl : lookupKey kvl kv vv with
-                  | none => simp [hl] at hsub
-                  | some x =>
-                    simp only [hl, Except.ok.injEq] at hsub; subst hsub
-                    exact dictLookup_sem w env k kvl hkc hkind r x ks vs kv vv hc hkv hvv hd hl
-                · simp [hcc] at hsub
+            cases hkc : constVal k with
+            | error e => simp [hkc] at h
+            | ok kvl =>
+              simp only [hkc] at h
+              have hsub : subscriptLz (.dict (dictBuild kv vv [] []).1 (dictBuild kv vv [] []).2) kvl = .ok v := h
+              have hunf : ∀ a b, subscriptLz (.dict a b) kvl =
+                  if kvl.clean && Val.cleanL a then subscript (.dict a b) kvl else .error uncleanErr := by
+                intro a b; cases kvl <;> rfl
+              rw [hunf] at hsub
+              by_cases hcc : (kvl.clean && Val.cleanL (dictBuild kv vv [] []).1) = true
+              · simp only [hcc, if_true, subscript] at hsub
+                have hsc := constKeys_scalar w env ks kv hc hkv
+                rw [lookupKey_mkDict kvl (constVal_scalar hkc) kv vv hsc] at hsub
+                cases hl : lastMatchV kvl kv vv with
+                | none => simp [hl] at hsub
+                | some x =>
+                  simp only [hl, Except.ok.injEq] at hsub; subst hsub
+                  exact dictLookup_sem w env k kvl hkc hkind ks vs kv vv r x hc hkv hvv hd hl
+              · simp [hcc] at hsub
           · simp [hcl] at h
         · simp [hlen] at h
   · simp [hc] at hd
@@ -640,11 +709,8 @@ theorem rule_dict_attr (w : World) (env : Env) (ks vs : List Expr) (a : String) 
           by_cases hlen : kv.length = vv.length
           · simp only [hlen, if_true, mkDictLz, mkDict] at hdv
             by_cases hcl : Val.cleanL kv = true
-            · simp only [hcl, if_true] at hdv
-              by_cases hdup : hasDupKey kv = true
-              · simp [hdup] at hdv
-              · simp only [hdup, Bool.false_eq_true, if_false, Except.ok.injEq] at hdv
-                exact ⟨kv, vv, hdv.symm, hcl⟩
+            · simp only [hcl, if_true, Except.ok.injEq] at hdv
+              exact ⟨_, _, hdv.symm, dictBuild_clean_keys kv vv [] [] hcl (by simp [Val.cleanL])⟩
             · simp [hcl] at hdv
           · simp [hlen] at hdv
     obtain ⟨kv, vv, rfl, hcl⟩ := hdict
